@@ -15,6 +15,7 @@ import quad_common as Q
 
 INF = float("inf")
 KEY_F4 = "F4-noisy-average-curve-premature-convergence-zero-inside-range"
+KEY_FOOLED4 = "C08-noisy-average-stop-rule-fooled-at-the-first-permitted-round"
 KEY_F5 = "F5-noisy-point-mass-average-never-returns"
 MODEL_CAP = 15          # the model follows the loop for at most 2^15 integrand evaluations per curve
 KEY_INT_PARAMS = "C08-integer-typed-parameters-intermediate-not-representable"
@@ -601,6 +602,10 @@ def noisy_average_part(rep, rng, drv, NQ, switches, n_cases, replay):
         # the documented probe of the defect and its shifted twin
         dict(a=0.0, b=1.0, c=5, convex=False, o=1e-3, mn=True, ns=[100.0], atol=None),
         dict(a=0.3, b=1.3, c=5, convex=False, o=1e-3, mn=True, ns=[100.0], atol=None),
+        # array ns whose LARGEST n has the smoothest integrand (c = 1 against the tail: the n = 2 integrand is almost linear, the n = 1 one is
+        # not): the stop rule has to hold for every entry of the array, not only for the largest n
+        dict(a=0.0, b=1.0, c=1, convex=False, o=1e-3, mn=True, ns=[1.0, 2.0], atol=None),
+        dict(a=-0.4, b=0.6, c=1, convex=True, o=3e-4, mn=False, ns=[1.0, 2.0], atol=None),
     ]
     kinds = ["generic", "zero_inside", "edge_near_zero", "noise_free", "far_location", "tiny_scale", "generic", "zero_inside"]
     # the few integrated cases of the quick tier go through the history labels in turn (starting at a seeded offset), so that
@@ -671,10 +676,12 @@ def noisy_average_part(rep, rng, drv, NQ, switches, n_cases, replay):
         truths = [Q.expect_best(d, n, eff, a, b, o, 1e-9 * S) for n in ns]
         bad = [j for j, (v, t) in enumerate(zip(vals, truths)) if not abs(v - t) <= tol]
         f4 = (lo <= 0.0 < hi) and (model_agrees is True)
+        # recorded finding (known_findings.json): the documented loop itself stops at the first permitted round on an accidentally small estimate
+        fooled4 = (model_agrees is True) and m["status"] == "ok" and m["rounds"] == 4
         for j in bad:
-            kw = dict(finding_key=KEY_F4) if f4 else {}
+            kw = dict(finding_key=KEY_FOOLED4) if (fooled4 and abs(vals[j] - truths[j]) <= 1e-3 * S) else dict(finding_key=KEY_F4) if f4 else {}
             rep.violate(what="average_tuning_curve differs from the integral of y d[F^n] (adaptive quadrature of the class's own cdf) by more than "
-                             "100*max(atol, 1e-6*(b-a+12o))" + (": premature stop of the trapezoid refinement (the value equals the Lean model of the loop, so the error estimate itself was fooled)" if f4 else ""),
+                             "100*max(atol, 1e-6*(b-a+12o))" + (": premature stop of the trapezoid refinement (the value equals the Lean model of the loop, so the error estimate itself was fooled)" if (f4 or fooled4) else ""),
                         input=dict(inp, n=C.fhex(ns[j])), expected=truths[j], observed=vals[j], tolerance=tol,
                         call="NoisyQuadraticDistribution.average_tuning_curve", detail=dict(shown, model=m), **kw)
         if len(ns) > 1:
